@@ -16,7 +16,8 @@ Record cfg_facts (c : cfg) : Prop := {
   cf_hdrs_pos : 0 < hdr_slab c;
   cf_nb_pos : 1 <= nbuckets c;
   cf_two : overhead c (max_bucket_size c) + 2 * max_bucket_size c <= slabsz c;
-  cf_sb_bound : sb c <= 4611686018427387904
+  cf_sb_bound : sb c <= 4611686018427387904;
+  cf_slabsz_bound : slabsz c <= 17179869184
 }.
 
 Lemma cfg_ok_facts c : cfg_ok c = true -> cfg_facts c.
@@ -94,6 +95,12 @@ Qed.
 Lemma overhead_lt_slabsz c i : cfg_facts c -> i < nbuckets c -> overhead c (b2s i) < slabsz c.
 Proof. intros F Hi. pose proof (class_two_fit c i F Hi). pose proof (b2s_pos i). lia. Qed.
 
+Lemma nobj_lt32 c i : cfg_facts c -> nobj c (b2s i) < 4294967296.
+Proof.
+  intros F. pose proof (cf_slabsz_bound c F) as B. pose proof (b2s_ge8 i) as G. unfold nobj, payload.
+  apply N.div_lt_upper_bound; [lia|]. nia.
+Qed.
+
 (* ---------- the invariant ---------- *)
 Definition sl_key (x : slab) : N * (N * N) := (sl_frame x, sl_region x).
 Definition lg_key (x : large) : N * (N * N) := (lg_frame x, lg_region x).
@@ -112,7 +119,7 @@ Record slab_ok (c : cfg) (k : N) (lv : list N) (x : slab) : Prop := {
   so_hi : sl_frame x + slabsz c <= sl_base x + sl_res x;
   so_nodup : NoDup (sl_avail x);
   so_avail : forall a, In a (sl_avail x) -> obj_of c x a /\ ~ In a lv;
-  so_nres : 1 <= sl_nres x <= k
+  so_nres : sl_nres x + N.of_nat (length (sl_avail x)) = nobj c (sl_item x)     (* [k] is not used any more *)
 }.
 
 Record large_ok (c : cfg) (x : large) : Prop := {
